@@ -10,6 +10,17 @@ z_at_value results evaluated by the implementation's own cosmology objects, log 
 from numpy) and compared inside Coq with the repaired and with the current model.
 Translator: symbols are pushed through the real Scales._compute_angle and the expression that
 comes out is proved equal to r * factor(unit) / D_unit in Coq (field), for all values.
+
+Two further dimensions of every case (props/c15_obs.py holds the code that touches the implementation):
+  * the python TYPE in which each value is handed over (T = {parameter: kind}: numpy scalars of four widths, tuples /
+    lists / float32 / read-only / strided / integer arrays, lists of numpy scalars, enum members, np.str_; and, with
+    no promise of acceptance, option strings in another letter case and integers given as floats).  The model sees the
+    value the parameter stands for: the outcome must not depend on T.
+  * the INTERPRETER MODE: a sample of the create / invalid / modify / round-trip / == cases, every refusal the property
+    demands among them, is repeated in fresh interpreters started with -O and with PYTHONOPTIMIZE=1 (assert
+    statements and `if __debug__` blocks compiled away) and checked by the same Coq terms
+    (Proofs/ConfigP.v: create_g_all_raise - a code whose validations are raise statements has one behaviour in both
+    modes, so the model of the default interpreter is the model of the optimised one).
 """
 import math
 import os
@@ -21,6 +32,9 @@ import numpy as np
 from lib import coqrun
 from lib import floatq as fq
 from lib import impl  # noqa: F401  (asserts that yaw comes from the tree under test)
+from props import c15_obs as ob
+from props.c15_obs import (COSMO_NAMES, CUSTOM_ID, OMIT, Cos, cosmo_ident, cosmo_object,  # noqa: F401
+                           custom_cosmology, kwargs_of)
 
 ALLOWED_AXIOMS = []
 TRUSTED = [
@@ -32,6 +46,11 @@ TRUSTED = [
     "assumes the traced function branches only on the unit)",
     "the harness-side merge of create-arguments and modifications used for the implementation-vs-implementation "
     "comparison modify(...) == create(merged) mirrors Model/Config.v:overlay",
+    "props/c15_obs.py:realise builds the typed value from the plain one without changing the number / string it stands "
+    "for (generators only pick a kind when the conversion is exact: float32 kinds for float32-representable values, "
+    "integer kinds for integral values)",
+    "lib/optmode.py starts the fresh interpreters; the child reports __debug__, sys.flags.optimize and that yaw was "
+    "imported from the tree under test (checked as an obligation)",
 ]
 ASSUMPTIONS = [
     "edges of linear binnings are compared to 2^-48, of comoving/logspace binnings to 2^-20 (oracle tables), custom "
@@ -40,113 +59,25 @@ ASSUMPTIONS = [
     "exceptions are classed as ConfigError / ValueError / TypeError (refusal) versus KeyError / AttributeError / "
     "other (crash)",
     "the Mpc/h and kpc/h units are modelled as the code computes them: number / D_C[Mpc], no factor h",
+    "acceptance is not demanded of option strings in another letter case, of integers handed over as floats and of "
+    "BinMethodAuto members: a refusal is counted (refused-unpromised-input), an acceptance must mean the plain value",
+    "non-finite values have no rational model: a NaN among the edges / redshift limits / scale limits must be refused "
+    "or lead to strictly increasing NaN-free edges and rmin < rmax (direct check); infinite limits are not judged "
+    "beyond that",
+    "the outcome in an optimised interpreter is also compared with the outcome of the same call in this interpreter "
+    "(bit for bit; a difference that no failing input explains is reported as a disagreement)",
 ]
 RULE = ("cases = (kind, create-arguments, modification, cosmology) with kind in create / invalid / modify / eq / "
         "roundtrip / angle; distinct by that tuple; non-trivial when the case generates or regenerates bin edges, "
         "changes at least one parameter, or is refused (every modify/eq/roundtrip/angle/invalid case, and create "
-        "cases with generated edges)")
+        "cases with generated edges); the python types of the values and the interpreter mode are part of the tuple")
 
 HEADER = "From Verif Require Import Prelude Config.\nOpen Scope Q_scope.\n"
-
-COSMO_NAMES = {"Planck15": 0, "WMAP9": 1, "Planck13": 2}
-CUSTOM_ID = 100
 
 METHODS = {"linear": "MLinear", "comoving": "MComoving", "logspace": "MLogspace", "custom": "MCustom"}
 CLOSED = {"right": "ClRight", "left": "ClLeft"}
 UNITS = {"kpc": "Ukpc", "Mpc": "UMpc", "rad": "Urad", "deg": "Udeg", "arcmin": "Uarcmin", "arcsec": "Uarcsec",
          "kpc/h": "Ukpc_h", "Mpc/h": "UMpc_h"}
-OMIT = "<omit>"
-
-
-# ---------------------------------------------------------------- cosmologies
-class Cos:
-    """How a cosmology is handed over: kind in omit/none/name/obj/custom/badname/badtype."""
-
-    def __init__(self, kind, name=None):
-        self.kind, self.name = kind, name
-
-    def key(self):
-        return (self.kind, self.name)
-
-    def __repr__(self):
-        return "Cos(%s%s)" % (self.kind, "," + self.name if self.name else "")
-
-    def value(self):
-        import astropy.cosmology as ac
-        if self.kind == "none":
-            return None
-        if self.kind == "name":
-            return self.name
-        if self.kind == "obj":
-            return getattr(ac, self.name)
-        if self.kind == "custom":
-            return custom_cosmology()
-        if self.kind == "badname":
-            return "NoSuchCosmology"
-        if self.kind == "badtype":
-            return 5
-        raise KeyError(self.kind)
-
-    def coq(self):
-        if self.kind == "omit":
-            return "(CosName 0)"
-        if self.kind == "none":
-            return "CosNone"
-        if self.kind == "name":
-            return "(CosName %d)" % COSMO_NAMES[self.name]
-        if self.kind == "obj":
-            return "(CosObj %d)" % COSMO_NAMES[self.name]
-        if self.kind == "custom":
-            return "(CosCustom %d)" % CUSTOM_ID
-        return "CosBadName" if self.kind == "badname" else "CosBadType"
-
-    def ident(self):
-        """number of the cosmology this stands for (None when it is not a cosmology)"""
-        if self.kind in ("omit", "none"):
-            return 0
-        if self.kind in ("name", "obj"):
-            return COSMO_NAMES[self.name]
-        if self.kind == "custom":
-            return CUSTOM_ID
-        return None
-
-
-_CUSTOM = []
-
-
-def custom_cosmology():
-    if not _CUSTOM:
-        from yaw.cosmology import CustomCosmology
-
-        class Linear(CustomCosmology):
-            """D_C = 3000 z Mpc, D_A = D_C / (1 + z); plain floats as the interface documents"""
-
-            def comoving_distance(self, z):
-                return 3000.0 * np.asarray(z, dtype=float)
-
-            def angular_diameter_distance(self, z):
-                z = np.asarray(z, dtype=float)
-                return 3000.0 * z / (1.0 + z)
-
-        _CUSTOM.append(Linear())
-    return _CUSTOM[0]
-
-
-def cosmo_object(ident):
-    import astropy.cosmology as ac
-    if ident == CUSTOM_ID:
-        return custom_cosmology()
-    for k, v in COSMO_NAMES.items():
-        if v == ident:
-            return getattr(ac, k)
-    raise KeyError(ident)
-
-
-def cosmo_ident(obj):
-    from yaw.cosmology import CustomCosmology
-    if isinstance(obj, CustomCosmology):
-        return CUSTOM_ID
-    return COSMO_NAMES.get(getattr(obj, "name", None), 99)
 
 
 # ---------------------------------------------------------------- oracle tables
@@ -290,58 +221,42 @@ def coq_mods(M):
         f("max_workers", lambda v: fq.opt(v, fq.nat)))
 
 
-def kwargs_of(P):
-    kw = {}
-    for k, v in P.items():
-        if v is OMIT:
-            continue
-        if k == "cosmology":
-            if v.kind == "omit":
-                continue
-            kw[k] = v.value()
-        else:
-            kw[k] = v
-    return kw
-
-
 EXN = {"ConfigError": "ExConfig", "ValueError": "ExValue", "TypeError": "ExType", "KeyError": "ExKey",
        "AttributeError": "ExAttr"}
 
+MODES = {"-O": (("-O",), None), "PYTHONOPTIMIZE=1": ((), {"PYTHONOPTIMIZE": "1"})}
+
 
 class Obs:
-    """outcome of one call on the implementation"""
+    """outcome of one call on the implementation (an observation dictionary of c15_obs: snap or exn / msg)"""
 
-    def __init__(self, conf=None, exc=None):
-        self.conf, self.exc = conf, exc
-        self.snap = snapshot(conf) if conf is not None else None
+    def __init__(self, d):
+        self.d = d
+        self.snap = d.get("snap")
 
     @property
     def raised(self):
-        return self.exc is not None
+        return "exn" in self.d
 
     def exn(self):
-        return type(self.exc).__name__ if self.exc is not None else None
+        return self.d.get("exn")
+
+    def msg(self):
+        return self.d.get("msg", "")
+
+    def finite(self):
+        s = self.snap
+        return s is None or all(isinstance(x, int) or math.isfinite(x) for x in s["edges"] + s["rmin"] + s["rmax"])
 
     def coq(self):
-        if self.exc is not None:
-            return "(ORaised %s)" % EXN.get(type(self.exc).__name__, "ExOther")
+        if self.raised:
+            return "(ORaised %s)" % EXN.get(self.exn(), "ExOther")
         return "(OOk %s)" % coq_snapshot(self.snap)
 
     def brief(self):
-        if self.exc is not None:
-            return "%s: %s" % (type(self.exc).__name__, str(self.exc)[:120])
+        if self.raised:
+            return "%s: %s" % (self.exn(), self.msg()[:120])
         return dict(self.snap, edges=[float(x).hex() for x in self.snap["edges"]])
-
-
-def snapshot(conf):
-    """everything public of a configuration, as plain python values (copied)"""
-    return dict(
-        edges=[float(x) for x in np.array(conf.binning.edges, dtype=float, copy=True)],
-        method=str(conf.binning.method), closed=str(conf.binning.closed),
-        rmin=[x for x in np.atleast_1d(conf.scales.scales.scale_min).tolist()],
-        rmax=[x for x in np.atleast_1d(conf.scales.scales.scale_max).tolist()],
-        unit=str(conf.scales.unit), rweight=conf.scales.rweight, resolution=conf.scales.resolution,
-        cosmo=cosmo_ident(conf.cosmology), workers=conf.max_workers)
 
 
 def coq_snapshot(s):
@@ -351,18 +266,16 @@ def coq_snapshot(s):
         s["cosmo"], fq.opt(s["workers"], fq.nat))
 
 
-def call(f):
-    try:
-        with warnings.catch_warnings():
-            warnings.simplefilter("ignore")
-            return Obs(conf=f())
-    except Exception as e:  # noqa: BLE001 - the class of the exception is the observation
-        return Obs(exc=e)
+def do_create(P, T=None):
+    return Obs(ob.observe_create(dict(P=P, T=T or {}))["o"])
 
 
-def do_create(P):
-    from yaw import Configuration
-    return call(lambda: Configuration.create(**kwargs_of(P)))
+class Remote:
+    """a fresh interpreter in another mode: jobs are collected, run in one go, then finished"""
+
+    def __init__(self, mode):
+        self.mode = mode
+        self.pending = []
 
 
 # ---------------------------------------------------------------- merge (mirror of Config.v:overlay)
@@ -410,12 +323,85 @@ def cos_of(P):
 
 
 # ---------------------------------------------------------------- case builders
+def type_sig(T, lenient_only=False):
+    """short structural name of a type map: 'float32-limits', 'readonly-edges+int64-num_bins'"""
+    grp = lambda k: "limits" if k in ("zmin", "zmax") else "scales" if k in ("rmin", "rmax") else k
+    short = lambda kind: kind.replace("np.", "").replace("array:", "").replace("list:", "list-of-")
+    items = sorted({"%s-%s" % (short(kind), grp(k)) for k, kind in (T or {}).items()
+                    if not lenient_only or kind in ob.LENIENT})
+    return "+".join(items) or "plain"
+
+
+def nan_free_valid(snap):
+    """the clause itself, on numbers that have no rational model: at least two strictly increasing NaN-free edges and
+    rmin < rmax without NaN"""
+    e = snap["edges"]
+    if len(e) < 2 or any(x != x for x in e) or not all(a < b for a, b in zip(e, e[1:])):
+        return False
+    lo, hi = snap["rmin"], snap["rmax"]
+    return len(lo) == len(hi) and all(a == a and b == b and a < b for a, b in zip(lo, hi))
+
+
 class Run:
     def __init__(self, ctx):
         self.ctx = ctx
         self.oracle = Oracle()
-        self.cases = {k: [] for k in ("create", "modify", "eq", "roundtrip", "angle")}
-        self.base_cache = {}
+        self.cases = {k: [] for k in ("create", "modify", "eq", "roundtrip", "angle", "direct")}
+
+    # -- where a job runs: this interpreter (finished at once) or a fresh one in another mode (finished by flush)
+    def submit(self, job, finish, where):
+        if where is None:
+            return finish(ob.observe(job))
+        where.pending.append((job, finish))
+        return None
+
+    def flush(self, remotes):
+        """run the collected jobs of every remote interpreter (side by side), then build their cases"""
+        from concurrent.futures import ThreadPoolExecutor
+        from lib import optmode
+
+        def go(rem):
+            flags, env = MODES[rem.mode]
+            return optmode.run(ob.CHILD, dict(jobs=[ob.enc(j) for j, _ in rem.pending]), flags=flags, env_extra=env,
+                               timeout=900)
+        with ThreadPoolExecutor(max_workers=len(remotes) or 1) as ex:
+            outs = list(ex.map(go, remotes))
+        for rem, r in zip(remotes, outs):
+            res = r.get("result")
+            ok = (isinstance(res, dict) and res.get("debug") is False and res.get("optimize", 0) >= 1
+                  and res.get("same_tree") is True and len(res.get("results", [])) == len(rem.pending))
+            self.ctx.obligation("optimised-interpreter probe ran (%s): __debug__ is False, yaw from the tree under test, "
+                                "%d jobs answered" % (rem.mode, len(rem.pending)), ok,
+                                "rc=%s %s" % (r.get("rc"), r.get("stderr")))
+            if not ok:
+                continue
+            for (job, finish), out in zip(rem.pending, res["results"]):
+                out = ob.dec(out)
+                if "probe_error" in out:
+                    self.ctx.obligation("optimised-interpreter job (%s, %s)" % (rem.mode, job["kind"]), False,
+                                        out["probe_error"] + " " + repr(show_job(job))[:600])
+                    continue
+                finish(out)
+            rem.pending = []
+
+    def versus(self, cid, c, baseline):
+        """the outcome in the other interpreter against the outcome of the same call in this one"""
+        if baseline is None:
+            return
+        import json
+        a, b = json.dumps(c["res"], sort_keys=True), json.dumps(baseline["res"], sort_keys=True)
+        self.ctx.bump("optimised_same_as_default" if a == b else "optimised_differs_from_default")
+        if a != b:
+            self.ctx.disagree("outcome with python %s against the outcome in the default interpreter" % c["mode"], cid,
+                              dict(job=show_job(c["job"]), optimised=c["res"], default=baseline["res"]))
+
+    def fail(self, c, sig, what, replay, case):
+        mode = c.get("mode")
+        if mode:
+            sig += ":optimised-interpreter"
+            what = "with python %s (assert statements and `if __debug__` blocks compiled away): %s" % (mode, what)
+            replay = dict(replay, interpreter=mode)
+        self.ctx.fail(sig, what, replay, case=case)
 
     # -- tables a create from P may consult
     def tables_for(self, tb, P, idents=None):
@@ -442,118 +428,196 @@ class Run:
         except Exception:
             return 0.0, 0.0, []
 
-    def add_create(self, P, tag, expect_invalid=None):
-        ctx = self.ctx
-        obs = do_create(P)
-        tb = Tables(self.oracle)
-        self.tables_for(tb, P)
-        flo, fhi, fv = self.grid_values(P, obs)
-        term = "c15_create_case %s %s %s %s %s %s" % (tb.coq(), coq_params(P), obs.coq(), fq.q(flo), fq.q(fhi),
-                                                     fq.qlist(fv))
-        immut = None
-        if not obs.raised:
-            immut = immutable_probe(obs.conf)
-        self.cases["create"].append(dict(term=term, P=P, obs=obs, tag=tag, expect_invalid=expect_invalid,
-                                         immut=immut))
-        ctx.count(key=("create", canon(P)), nontrivial=is_generated(P) or obs.raised,
-                  kind="create/%s/%s" % (effective(P)[0], "raised" if obs.raised else "ok"))
-        ctx.sample(dict(kind="create", args=show(P), observed=obs.brief()), limit=4)
-        return obs
+    def unpromised(self, kind, key, T):
+        """a refusal of a value the property does not promise to accept: counted, not judged"""
+        self.ctx.count(key=key, nontrivial=True, kind="%s/refused-unpromised-input" % kind)
+        self.ctx.bump("refused-unpromised-input:" + type_sig(T, lenient_only=True))
 
-    def add_modify(self, P, M, tag):
-        ctx = self.ctx
-        o_create = do_create(P)
-        if o_create.raised:
-            return
-        conf = o_create.conf
-        mk = {k: (v.value() if k == "cosmology" else v) for k, v in M.items()}
-        o_mod = call(lambda: conf.modify(**mk))
-        o_after = Obs(conf=conf)
+    def add_create(self, P, tag, expect_invalid=None, T=None, where=None, baseline=None):
+        T = dict(T or {})
+        mode = where.mode if where else None
+        job = dict(kind="create", P=P, T=T)
+
+        def finish(res):
+            ctx = self.ctx
+            obs = Obs(res["o"])
+            key = ("create", canon(P), canon(T), mode)
+            if obs.raised and ob.lenient(T):
+                self.unpromised("create", key, T)
+                return obs
+            tb = Tables(self.oracle)
+            self.tables_for(tb, P)
+            flo, fhi, fv = self.grid_values(P, obs)
+            term = "c15_create_case %s %s %s %s %s %s" % (tb.coq(), coq_params(P), obs.coq(), fq.q(flo), fq.q(fhi),
+                                                         fq.qlist(fv))
+            c = dict(term=term, P=P, T=T, obs=obs, tag=tag, expect_invalid=expect_invalid, immut=res.get("immut"),
+                     mode=mode, job=job, res=res)
+            self.cases["create"].append(c)
+            self.versus(("create", len(self.cases["create"]) - 1), c, baseline)
+            ctx.count(key=key, nontrivial=is_generated(P) or obs.raised or bool(T) or bool(mode),
+                      kind="create/%s/%s%s%s" % (effective(P)[0], "raised" if obs.raised else "ok",
+                                                 "/typed" if T else "", "/" + mode if mode else ""))
+            for k, kind in T.items():
+                ctx.bump("typed:%s:%s" % (k, kind))
+            ctx.sample(dict(kind="create", args=show(P), types=T, interpreter=mode, observed=obs.brief()), limit=4)
+            return obs
+        return self.submit(job, finish, where)
+
+    def add_modify(self, P, M, tag, T=None, TM=None, where=None, baseline=None):
+        T, TM = dict(T or {}), dict(TM or {})
+        mode = where.mode if where else None
         merged = merge(P, M)
-        o_fresh = do_create(merged)
-        tb = Tables(self.oracle)
-        self.tables_for(tb, P)
-        extra = {0, cos_of(P).ident()}
-        if "cosmology" in M:
-            extra.add(M["cosmology"].ident())
-        self.tables_for(tb, merged, idents=[i for i in extra if i is not None])
-        term = "c15_modify_case %s %s %s %s %s %s %s" % (tb.coq(), coq_params(P), coq_mods(M), o_create.coq(),
-                                                        o_mod.coq(), o_after.coq(), o_fresh.coq())
-        self.cases["modify"].append(dict(term=term, P=P, M=M, merged=merged, o_create=o_create, o_mod=o_mod,
-                                         o_after=o_after, o_fresh=o_fresh, tag=tag))
-        ctx.count(key=("modify", canon(P), canon(M)), nontrivial=True,
-                  kind="modify/%s/%d-param" % (effective(P)[0], len(M)))
-        for k in M:
-            ctx.bump("modified:" + k)
-        ctx.sample(dict(kind="modify", args=show(P), mods=show(M), observed=o_mod.brief()), limit=4)
+        job = dict(kind="modify", P=P, T=T, M=M, TM=TM, merged=merged)
 
-    def add_eq(self, PA, PB, same, tag):
-        from yaw import Configuration  # noqa: F401
-        a, b = do_create(PA), do_create(PB)
-        if a.raised or b.raised:
-            return
-        msg = ""
-        try:
-            r = (a.conf == b.conf)
-            o, oc = ("true" if r else "false"), ("EqTrue" if r else "EqFalse")
-        except Exception as e:  # noqa: BLE001
-            o, oc = type(e).__name__, "(EqRaised %s)" % EXN.get(type(e).__name__, "ExOther")
-            msg = str(e)
-        tb = Tables(self.oracle)
-        self.tables_for(tb, PA)
-        self.tables_for(tb, PB)
-        term = "c15_eq_case %s %s %s %s %s" % (tb.coq(), coq_params(PA), coq_params(PB), fq.b(same), oc)
-        self.cases["eq"].append(dict(term=term, PA=PA, PB=PB, same=same, outcome=o, message=msg, tag=tag))
-        self.ctx.count(key=("eq", canon(PA), canon(PB)), nontrivial=True, kind="eq/%s" % ("same" if same else "differ"))
+        def finish(res):
+            ctx = self.ctx
+            o_create = Obs(res["o_create"])
+            if o_create.raised:
+                return
+            o_mod, o_after, o_fresh = Obs(res["o_mod"]), Obs(res["o_after"]), Obs(res["o_fresh"])
+            key = ("modify", canon(P), canon(M), canon(T), canon(TM), mode)
+            if o_mod.raised and ob.lenient(TM):
+                self.unpromised("modify", key, TM)
+                return
+            tb = Tables(self.oracle)
+            self.tables_for(tb, P)
+            extra = {0, cos_of(P).ident()}
+            if "cosmology" in M:
+                extra.add(M["cosmology"].ident())
+            self.tables_for(tb, merged, idents=[i for i in extra if i is not None])
+            term = "c15_modify_case %s %s %s %s %s %s %s" % (tb.coq(), coq_params(P), coq_mods(M), o_create.coq(),
+                                                            o_mod.coq(), o_after.coq(), o_fresh.coq())
+            c = dict(term=term, P=P, M=M, T=T, TM=TM, merged=merged, o_create=o_create, o_mod=o_mod, o_after=o_after,
+                     o_fresh=o_fresh, tag=tag, mode=mode, job=job, res=res)
+            self.cases["modify"].append(c)
+            self.versus(("modify", len(self.cases["modify"]) - 1), c, baseline)
+            ctx.count(key=key, nontrivial=True,
+                      kind="modify/%s/%d-param%s%s" % (effective(P)[0], len(M), "/typed" if T or TM else "",
+                                                       "/" + mode if mode else ""))
+            if not mode:
+                for k in M:
+                    ctx.bump("modified:" + k)
+            for k, kind in TM.items():
+                ctx.bump("typed-modification:%s:%s" % (k, kind))
+            ctx.sample(dict(kind="modify", args=show(P), mods=show(M), types=T, mod_types=TM, interpreter=mode,
+                            observed=o_mod.brief()), limit=4)
+        return self.submit(job, finish, where)
 
-    def add_roundtrip(self, P, tag):
-        from yaw import Configuration
-        o_create = do_create(P)
-        if o_create.raised:
-            return
-        conf = o_create.conf
-        o_rt = call(lambda: Configuration.from_dict(conf.to_dict()))
-        tb = Tables(self.oracle)
-        self.tables_for(tb, P)
-        if not o_create.raised:
+    def add_eq(self, PA, PB, same, tag, TA=None, TB=None, where=None, baseline=None):
+        TA, TB = dict(TA or {}), dict(TB or {})
+        mode = where.mode if where else None
+        job = dict(kind="eq", PA=PA, TA=TA, PB=PB, TB=TB)
+
+        def finish(res):
+            if "outcome" not in res:
+                return
+            o, msg = res["outcome"], res.get("msg", "")
+            oc = {"true": "EqTrue", "false": "EqFalse"}.get(o) or "(EqRaised %s)" % EXN.get(o, "ExOther")
+            tb = Tables(self.oracle)
+            self.tables_for(tb, PA)
+            self.tables_for(tb, PB)
+            term = "c15_eq_case %s %s %s %s %s" % (tb.coq(), coq_params(PA), coq_params(PB), fq.b(same), oc)
+            c = dict(term=term, PA=PA, PB=PB, TA=TA, TB=TB, same=same, outcome=o, message=msg, tag=tag, mode=mode,
+                     job=job, res=res)
+            self.cases["eq"].append(c)
+            self.versus(("eq", len(self.cases["eq"]) - 1), c, baseline)
+            self.ctx.count(key=("eq", canon(PA), canon(PB), canon(TA), canon(TB), mode), nontrivial=True,
+                           kind="eq/%s%s%s" % ("same" if same else "differ", "/typed" if TA or TB else "",
+                                               "/" + mode if mode else ""))
+        return self.submit(job, finish, where)
+
+    def add_roundtrip(self, P, tag, T=None, via="dict", where=None, baseline=None):
+        T = dict(T or {})
+        mode = where.mode if where else None
+        job = dict(kind="roundtrip", P=P, T=T, via=via, scratch=self.ctx.workdir)
+
+        def finish(res):
+            o_create = Obs(res["o_create"])
+            if o_create.raised:
+                return
+            o_rt = Obs(res["o_rt"])
+            tb = Tables(self.oracle)
+            self.tables_for(tb, P)
             s = o_create.snap
             tb.need(s["cosmo"], s["method"], s["edges"][0], s["edges"][-1], len(s["edges"]) - 1)
-        term = "c15_roundtrip_case %s %s %s %s" % (tb.coq(), coq_params(P), o_create.coq(), o_rt.coq())
-        self.cases["roundtrip"].append(dict(term=term, P=P, o_create=o_create, o_rt=o_rt, tag=tag))
-        self.ctx.count(key=("roundtrip", canon(P)), nontrivial=True, kind="roundtrip/%s" % effective(P)[0])
+            term = "c15_roundtrip_case %s %s %s %s" % (tb.coq(), coq_params(P), o_create.coq(), o_rt.coq())
+            c = dict(term=term, P=P, T=T, via=via, o_create=o_create, o_rt=o_rt, tag=tag, mode=mode, job=job, res=res)
+            self.cases["roundtrip"].append(c)
+            self.versus(("roundtrip", len(self.cases["roundtrip"]) - 1), c, baseline)
+            self.ctx.count(key=("roundtrip", canon(P), canon(T), via, mode), nontrivial=True,
+                           kind="roundtrip/%s/%s%s%s" % (effective(P)[0], via, "/typed" if T else "",
+                                                         "/" + mode if mode else ""))
+        return self.submit(job, finish, where)
 
-    def add_angle(self, unit, rmin, rmax, z, ident, tag, via_config=True):
+    def add_direct(self, P, tag, sig, M=None, T=None, TM=None, where=None, baseline=None):
+        """values without a rational model (NaN among them): the call must be refused, or what comes out must
+        satisfy the clause (nan_free_valid); judged here, not in Coq"""
+        T, TM = dict(T or {}), dict(TM or {})
+        mode = where.mode if where else None
+        if M is None:
+            job = dict(kind="create", P=P, T=T)
+        else:
+            job = dict(kind="modify", P=P, T=T, M=M, TM=TM, merged=P)
+
+        def finish(res):
+            if M is None:
+                obs = Obs(res["o"])
+            else:
+                if "o_mod" not in res:
+                    return
+                obs = Obs(res["o_mod"])
+            c = dict(P=P, M=M, T=T, TM=TM, obs=obs, tag=tag, sig=sig, mode=mode, job=job, res=res)
+            self.cases["direct"].append(c)
+            cid = ("direct", len(self.cases["direct"]) - 1)
+            self.versus(cid, c, baseline)
+            self.ctx.count(key=("direct", canon(P), canon(M or {}), canon(T), canon(TM), mode), nontrivial=True,
+                           kind="non-finite/%s/%s%s" % (tag, "raised" if obs.raised else "accepted", "/" + mode if mode else ""))
+            if not obs.raised and not nan_free_valid(obs.snap):
+                call_ = "create(%s)" % show(P) if M is None else "create(%s).modify(%s)" % (show(P), show(M))
+                self.fail(c, sig, "%s is accepted: edges %s, rmin %s, rmax %s" % (call_, obs.snap["edges"], obs.snap["rmin"],
+                                                                                    obs.snap["rmax"]),
+                          dict(kind="direct", args=show(P), mods=show(M) if M is not None else None, types=T,
+                               mod_types=TM, signature=sig, tag=tag, observed=repr(obs.snap)), cid)
+        return self.submit(job, finish, where)
+
+    def add_angle(self, unit, rmin, rmax, z, ident, tag, via_config=True, T=None, twin=None):
         """get_angle_radian(z, cosmology) of the scales of a configuration (or of a bare ScalesConfig
-        when the cosmology cannot be put into a Configuration)"""
+        when the cosmology cannot be put into a Configuration); T = the python types of rmin / rmax, twin = index of
+        the angle case with the same numbers handed over as plain python values"""
         from yaw import Configuration
         from yaw.config import ScalesConfig
+        T = dict(T or {})
         cos = cosmo_object(ident)
         try:
+            lo, hi = ob.realise("rmin", T.get("rmin"), rmin), ob.realise("rmax", T.get("rmax"), rmax)
             if via_config:
                 name = cos if ident == CUSTOM_ID else [k for k, v in COSMO_NAMES.items() if v == ident][0]
-                conf = Configuration.create(rmin=rmin, rmax=rmax, unit=unit, zmin=0.25, zmax=0.5, num_bins=1,
+                conf = Configuration.create(rmin=lo, rmax=hi, unit=unit, zmin=0.25, zmax=0.5, num_bins=1,
                                             cosmology=name)
                 amin, amax = conf.scales.scales.get_angle_radian(z, cosmology=conf.cosmology)
                 used = cosmo_ident(conf.cosmology)
             else:
-                sc = ScalesConfig.create(rmin=rmin, rmax=rmax, unit=unit)
+                sc = ScalesConfig.create(rmin=lo, rmax=hi, unit=unit)
                 amin, amax = sc.scales.get_angle_radian(z, cosmology=cos)
                 used = ident
         except Exception as e:  # noqa: BLE001
             self.ctx.fail("c15-angle-raises:%s" % type(e).__name__,
                           "get_angle_radian raised %s for unit %s" % (type(e).__name__, unit),
-                          dict(unit=unit, rmin=rmin, rmax=rmax, z=z, cosmology=ident,
+                          dict(unit=unit, rmin=rmin, rmax=rmax, z=z, cosmology=ident, types=T,
                                traceback=traceback.format_exc()[-1200:]))
-            return
+            return None
         rs = as_list(rmin) + as_list(rmax)
         ang = [float(x) for x in np.atleast_1d(amin)] + [float(x) for x in np.atleast_1d(amax)]
         DA, DC = self.oracle.DA(used, z), self.oracle.D(used, z)
         term = "c15_angle_case %s %s %s %s %s %s" % (coq_unit(unit), fq.q(float(np.pi / 180.0)), fq.q(DA), fq.q(DC),
                                                     fq.qlist(rs), fq.qlist(ang))
         self.cases["angle"].append(dict(term=term, unit=unit, rmin=rmin, rmax=rmax, z=z, cosmology=ident,
-                                        angles=[a.hex() for a in ang], DA=DA, DC=DC, tag=tag))
-        self.ctx.count(key=("angle", unit, repr(rmin), repr(rmax), z, ident, via_config), nontrivial=True,
-                       kind="angle/%s/cos%d" % (unit, ident))
+                                        angles=[a.hex() for a in ang], DA=DA, DC=DC, tag=tag, types=T, twin=twin))
+        self.ctx.count(key=("angle", unit, repr(rmin), repr(rmax), z, ident, via_config, canon(T)), nontrivial=True,
+                       kind="angle/%s/cos%d%s" % (unit, ident, "/typed" if T else ""))
+        for k, kind in T.items():
+            self.ctx.bump("typed-angle:%s:%s" % (k, kind))
+        return len(self.cases["angle"]) - 1
 
 
     def add_angle_fresh(self, unit, rmin, rmax, z, H0, Om0, tag):
@@ -597,19 +661,8 @@ def show(d):
     return {k: (repr(v) if isinstance(v, Cos) else v) for k, v in d.items()}
 
 
-def immutable_probe(conf):
-    """names of the objects whose attributes could be assigned (must be none)"""
-    bad = []
-    for name, obj, attr in (("Configuration", conf, "max_workers"), ("ScalesConfig", conf.scales, "rweight"),
-                            ("BinningConfig", conf.binning, "method")):
-        try:
-            setattr(obj, attr, getattr(obj, attr))
-            bad.append(name)
-        except AttributeError:
-            pass
-        except Exception:  # noqa: BLE001
-            bad.append(name + "?")
-    return bad
+def show_job(job):
+    return {k: (show(v) if isinstance(v, dict) else v) for k, v in job.items()}
 
 
 # ---------------------------------------------------------------- generators
@@ -765,6 +818,107 @@ def invalid_params(rng):
     add("zmin-eq-zmax-logspace", dict(base, zmin=0.5, zmax=0.5, method="logspace"))
     add("num-bins-0", dict(base, num_bins=0))
     add("num-bins-0-logspace", dict(base, num_bins=0, method="logspace"))
+    return [(tag, P, {}) for tag, P in out] + typed_invalid_params(base, cust)
+
+
+def typed_invalid_params(base, cust):
+    """the same refusals with the offending values in other python types"""
+    f32 = lambda *xs: [float(np.float32(x)) for x in xs]
+    return [
+        ("edges-unsorted/tuple", dict(cust, edges=[0.125, 0.75, 0.5, 1.0]), dict(edges="tuple")),
+        ("edges-equal/float32-array", dict(cust, edges=f32(0.1, 0.3, 0.3, 0.7)), dict(edges="array:float32")),
+        ("edges-decreasing/readonly-array", dict(cust, edges=[1.0, 0.5, 0.125], closed="left"),
+         dict(edges="array:readonly", closed="enum")),
+        ("edges-unsorted/strided-array", dict(cust, edges=[0.125, 0.5, 0.25]), dict(edges="array:strided")),
+        ("edges-equal/int64-array", dict(cust, edges=[0, 1, 1, 2]), dict(edges="array:int64")),
+        ("edges-single/list-of-np.float64", dict(cust, edges=[0.5]), dict(edges="list:np.float64")),
+        ("zmin-gt-zmax/np.float32", dict(base, zmin=f32(0.7)[0], zmax=f32(0.1)[0]), dict(zmin="np.float32", zmax="np.float32")),
+        ("zmin-eq-zmax/np.int64", dict(base, zmin=1, zmax=1, method="logspace"), dict(zmin="np.int64", zmax="np.int64")),
+        ("zmin-eq-zmax/np.float64-comoving", dict(base, zmin=0.5, zmax=0.5, method="comoving"),
+         dict(zmin="np.float64", zmax="np.float64", method="enum")),
+        ("rmin-gt-rmax/float32-array", dict(base, rmin=[1.0, 5.0], rmax=[2.0, 4.0]),
+         dict(rmin="array:float32", rmax="array:float32")),
+        ("rmin-eq-rmax/np.int32", dict(base, rmin=2, rmax=2), dict(rmin="np.int32", rmax="np.int32")),
+        ("scales-length/tuple", dict(base, rmin=[1.0, 2.0], rmax=[4.0]), dict(rmin="tuple", rmax="tuple")),
+        ("num-bins-0/np.int64", dict(base, num_bins=0), dict(num_bins="np.int64")),
+        ("method-unknown/np.str_", dict(base, method="quadratic"), dict(method="np.str_")),
+        ("unit-unknown/np.str_", dict(base, unit="parsec"), dict(unit="np.str_")),
+    ]
+
+
+def nonfinite_params():
+    """(tag, signature, create-arguments, modification or None): NaN where a number is expected"""
+    nan, inf = float("nan"), float("inf")
+    base = dict(rmin=1.0, rmax=2.0, zmin=0.25, zmax=0.75, num_bins=2)
+    cust = dict(rmin=1.0, rmax=2.0)
+    good = dict(cust, edges=[0.125, 0.5, 1.0])
+    E, S = "c15-invalid-accepted:nan-edges", "c15-invalid-accepted:nan-scales"
+    return [
+        ("nan-inner-edge", E, dict(cust, edges=[0.1, nan, 1.0]), None),
+        ("nan-first-edge", E, dict(cust, edges=[nan, 0.5, 1.0]), None),
+        ("nan-last-edge", E, dict(cust, edges=[0.1, 0.5, nan], closed="left"), None),
+        ("nan-zmin", E, dict(base, zmin=nan), None),
+        ("nan-zmax-logspace", E, dict(base, zmax=nan, method="logspace"), None),
+        ("nan-zmin-comoving", E, dict(base, zmin=nan, method="comoving"), None),
+        ("inf-zmax", E, dict(base, zmax=inf), None),
+        ("inf-inf-edges", E, dict(cust, edges=[0.1, inf, inf]), None),
+        ("modify-nan-edges", E, good, dict(edges=[0.1, nan, 1.0])),
+        ("modify-nan-zmin", E, base, dict(zmin=nan)),
+        ("nan-rmin", S, dict(base, rmin=nan), None),
+        ("nan-rmax", S, dict(base, rmax=nan), None),
+        ("nan-in-rmin-list", S, dict(base, rmin=[1.0, nan], rmax=[2.0, 4.0]), None),
+        ("modify-nan-rmin", S, base, dict(rmin=nan)),
+        ("modify-nan-rmax", S, good, dict(rmax=nan)),
+    ]
+
+
+# ---------------------------------------------------------------- python types of the values
+VALID_OPTIONS = dict(unit=UNITS, method=METHODS, closed=CLOSED)
+
+
+def kinds_for(param, plain):
+    """the kinds in which this value can be handed over without changing what it stands for"""
+    if plain is None or plain is OMIT or isinstance(plain, Cos):
+        return []
+    if param in ob.FLOAT_PARAMS:
+        cands = ob.SCALAR_FLOAT_KINDS
+    elif param in ob.INT_PARAMS:
+        cands = ob.SCALAR_INT_KINDS
+    elif param in ob.SEQ_PARAMS:
+        cands = ob.SEQ_KINDS
+    elif param in ob.SCALE_PARAMS:
+        cands = ob.SEQ_KINDS if isinstance(plain, list) else ob.SCALAR_FLOAT_KINDS
+    elif param in ob.STR_PARAMS:
+        if str(plain) not in VALID_OPTIONS[param]:
+            return []
+        cands = ob.STR_KINDS
+    else:
+        return []
+    return [k for k in cands if ob.applicable(param, k, plain)]
+
+
+def draw_types(rng, P, prob=0.6):
+    T = {}
+    for k in sorted(P):
+        ks = kinds_for(k, P[k])
+        if ks and rng.random() < prob:
+            T[k] = rng.choice(ks)
+    return T
+
+
+def lenient_cases():
+    """values the property does not promise to accept; when they are accepted they must mean the plain value"""
+    base = dict(rmin=1.0, rmax=2.0, zmin=0.25, zmax=0.75, num_bins=3, method="logspace", closed="left", unit="Mpc/h",
+                resolution=10, max_workers=2)
+    out = []
+    for k in ("unit", "method", "closed"):
+        for kind in ob.STR_LENIENT_KINDS:
+            out.append((base, {k: kind}))
+    for k in ("num_bins", "resolution", "max_workers"):
+        for kind in ("float", "np.float64-for-int", "np.float32-for-int"):
+            out.append((base, {k: kind}))
+    out.append((base, dict(method="enum-auto")))
+    out.append((dict(rmin=1.0, rmax=2.0, edges=[0.125, 0.5, 1.0], closed="right", unit="arcmin"), dict(closed="upper", unit="title")))
     return out
 
 
@@ -792,6 +946,32 @@ def probes(run):
     run.add_modify(dict(rmin=100.0, rmax=1000.0, zmin=0.0, zmax=1.0, num_bins=3), dict(method="comoving"), "probe-comoving-zmin0-modify")
     run.add_create(dict(rmin=100.0, rmax=1000.0, zmin=0.0, zmax=1.0, num_bins=3, method="comoving"), "probe-comoving-zmin0")
     custom_cosmology_factory_probe(run.ctx)
+    typed_probes(run)
+
+
+def typed_probes(run):
+    """F26 (18c893e): numpy float32 redshift limits; F27 (3e8b370): float32 scale limits; F28 (38ed3ea): NaN"""
+    f32 = lambda x: float(np.float32(x))
+    lim32 = dict(zmin="np.float32", zmax="np.float32")
+    for meth in ("linear", "logspace", "comoving"):
+        P = dict(rmin=100.0, rmax=1000.0, zmin=f32(0.1), zmax=f32(1.0), num_bins=3, method=meth)
+        run.add_create(P, "probe-F26-" + meth, T=lim32)
+        run.add_modify(P, dict(num_bins=3), "probe-F26-%s-modify-same-value" % meth, T=lim32)
+        run.add_modify(P, dict(rmin=200.0), "probe-F26-%s-modify-scale" % meth, T=lim32)
+        run.add_roundtrip(P, "probe-F26-" + meth, T=lim32, via="yaml")
+        run.add_eq(P, dict(P), True, "probe-F26-" + meth, TA=lim32)
+    # the same numbers as plain python values / numpy float32 scalars / a float32 array, every unit
+    for ui, u in enumerate(UNITS):
+        for kind, lo, hi in (("np.float32", 100.0, 1000.0), ("array:float32", [f32(0.1), 2.5], [f32(0.7), 10.0])):
+            twin = run.add_angle(u, lo, hi, [0.5, 0.25, 1.0][ui % 3], ui % 3, "probe-F27-plain")
+            run.add_angle(u, lo, hi, [0.5, 0.25, 1.0][ui % 3], ui % 3, "probe-F27-" + kind, T=dict(rmin=kind, rmax=kind), twin=twin)
+    for tag, sig, P, M in nonfinite_params():
+        run.add_direct(P, tag, sig, M=M)
+    for P, T in lenient_cases():
+        run.add_create(P, "unpromised-input", T=T)
+        plain = {k: v for k, v in P.items() if k not in T}
+        if "edges" in P or ("zmin" in plain and "zmax" in plain):
+            run.add_modify(plain, {k: P[k] for k in T}, "unpromised-input", TM=T)
 
 
 def custom_cosmology_factory_probe(ctx):
@@ -931,30 +1111,30 @@ def interpret(run, codes):
     for i, (c, code) in enumerate(zip(run.cases["create"], codes["create"])):
         cid = ("create", i)
         P, obs = c["P"], c["obs"]
-        replay = dict(kind="create", args=show(P), observed=obs.brief(), tag=c["tag"])
+        replay = dict(kind="create", args=show(P), types=c["T"], observed=obs.brief(), tag=c["tag"])
         if c["immut"]:
-            ctx.fail("c15-immutable-setattr", "attributes of %s can be assigned" % c["immut"], replay, case=cid)
+            run.fail(c, "c15-immutable-setattr", "attributes of %s can be assigned" % c["immut"], replay, case=cid)
         if code is None:
             continue
         meth = effective(P)[0]
         failed = False
         if code & 4:
             failed = True
-            ctx.fail("c15-edges-len", "create(num_bins=n) does not give n + 1 edges (%s, got %d edges)"
+            run.fail(c, "c15-edges-len", "create(num_bins=n) does not give n + 1 edges (%s, got %d edges)"
                      % (meth, len(obs.snap["edges"])), replay, case=cid)
         if code & 8:
             failed = True
-            ctx.fail("c15-edges-not-increasing", "created configuration has edges that are not strictly increasing",
+            run.fail(c, "c15-edges-not-increasing", "created configuration has edges that are not strictly increasing",
                      replay, case=cid)
         if code & 16:
             failed = True
             e = obs.snap["edges"]
-            ctx.fail("c15-edges-span-%s" % meth,
+            run.fail(c, "c15-edges-span-%s" % meth,
                      "%s edges do not span [zmin, zmax] exactly: zmin=%s first=%s, zmax=%s last=%s"
                      % (meth, float(P["zmin"]).hex(), e[0].hex(), float(P["zmax"]).hex(), e[-1].hex()), replay, case=cid)
         if code & 32:
             failed = True
-            ctx.fail("c15-invalid-accepted:%s" % c["tag"], "invalid parameters (%s) are accepted" % c["tag"], replay, case=cid)
+            run.fail(c, "c15-invalid-accepted:%s" % c["tag"], "invalid parameters (%s) are accepted" % c["tag"], replay, case=cid)
         if code & 64:
             failed = True
             ex = obs.exn()
@@ -964,10 +1144,10 @@ def interpret(run, codes):
                 sig = "c15-comoving-zmin0-cosmologyerror"
             else:
                 sig = "c15-valid-rejected:%s" % ex
-            ctx.fail(sig, "valid parameters are refused with %s" % obs.brief(), replay, case=cid)
+            run.fail(c, sig, "valid parameters are refused with %s" % obs.brief(), replay, case=cid)
         if code & 128:
             failed = True
-            ctx.fail("c15-edges-grid-%s" % meth, "%s edges are not the linear grid in the method's distance measure "
+            run.fail(c, "c15-edges-grid-%s" % meth, "%s edges are not the linear grid in the method's distance measure "
                      "of the configured cosmology" % meth, replay, case=cid)
         if c["expect_invalid"] and not obs.raised and not (code & 32):
             ctx.disagree("Cases_C15_create", cid, dict(note="generator marks the parameters invalid, model does not", replay=replay))
@@ -978,18 +1158,29 @@ def interpret(run, codes):
     # ---- modify
     for i, (c, code) in enumerate(zip(run.cases["modify"], codes["modify"])):
         cid = ("modify", i)
-        replay = dict(kind="modify", args=show(c["P"]), mods=show(c["M"]), merged=show(c["merged"]),
+        replay = dict(kind="modify", args=show(c["P"]), mods=show(c["M"]), types=c["T"], mod_types=c["TM"],
+                      merged=show(c["merged"]),
                       modify=c["o_mod"].brief(), create_merged=c["o_fresh"].brief(), original_after=c["o_after"].brief(),
                       tag=c["tag"])
         if code is None:
             continue
         if code & 32:
-            ctx.disagree("Cases_C15_modify(base create)", cid, dict(code=code, replay=replay))
+            if c["T"] and not (code & 1) and not (code & 8):
+                # created from values in other python types: the created configuration is not the one its parameters
+                # stand for, while modify() of it and create() of the merged plain values both are
+                run.fail(c, "c15-modify-differs-from-create:" + type_sig(c["T"]),
+                         "create with %s gives another configuration than modify(%s) of it and than create of the same "
+                         "values as plain python numbers: create -> %s ; modify -> %s"
+                         % (", ".join("%s as %s" % kv for kv in sorted(c["T"].items())),
+                            ", ".join("%s=%r" % kv for kv in sorted(show(c["M"]).items())), short(c["o_create"]), short(c["o_mod"])),
+                         replay, case=cid)
+            else:
+                ctx.disagree("Cases_C15_modify(base create)", cid, dict(code=code, replay=replay))
             continue
         if code & 16:
             ctx.obligation("instance of modify_is_create_merge on case %d" % i, False, repr(replay))
         if code & 4:
-            ctx.fail("c15-modify-mutates-original", "the original configuration changed during modify(%s)"
+            run.fail(c, "c15-modify-mutates-original", "the original configuration changed during modify(%s)"
                      % ", ".join(sorted(c["M"])), replay, case=cid)
         if code & 1:
             sig = classify_modify(c)
@@ -999,18 +1190,19 @@ def interpret(run, codes):
                     ctx.disagree("Cases_C15_modify", cid, dict(code=code, replay=replay))
             else:
                 ctx.bump("modify_agrees_with_pinned_commit_model_only")
-            ctx.fail(sig, "modify(%s) on a %s configuration is not create(merged parameters): modify -> %s ; create -> %s"
+            run.fail(c, sig, "modify(%s) on a %s configuration is not create(merged parameters): modify -> %s ; create -> %s"
                      % (", ".join("%s=%r" % kv for kv in sorted(show(c["M"]).items())), effective(c["P"])[0],
                         short(c["o_mod"]), short(c["o_fresh"])), replay, case=cid)
         elif code & 8:
-            ctx.fail("c15-modify-differs-from-create:impl", "modify(%s) and create(merged parameters) of the "
+            run.fail(c, "c15-modify-differs-from-create:impl", "modify(%s) and create(merged parameters) of the "
                      "implementation differ" % ", ".join(sorted(c["M"])), replay, case=cid)
         if not (code & 1):
             ctx.bump("modify_equals_create")
     # ---- eq
     for i, (c, code) in enumerate(zip(run.cases["eq"], codes["eq"])):
         cid = ("eq", i)
-        replay = dict(kind="eq", a=show(c["PA"]), b=show(c["PB"]), outcome=c["outcome"], message=c["message"], tag=c["tag"])
+        replay = dict(kind="eq", a=show(c["PA"]), b=show(c["PB"]), a_types=c["TA"], b_types=c["TB"], same=c["same"],
+                      outcome=c["outcome"], message=c["message"], tag=c["tag"])
         if code is None:
             continue
         if code & 1:
@@ -1019,16 +1211,17 @@ def interpret(run, codes):
             else:
                 sig = "c15-eq-wrong:%s" % c["outcome"]
                 ctx.disagree("Cases_C15_eq", cid, dict(code=code, replay=replay))
-            ctx.fail(sig, "== of two configurations built from %s parameters gives %s"
+            run.fail(c, sig, "== of two configurations built from %s parameters gives %s"
                      % ("the same" if c["same"] else "different", c["outcome"]), replay, case=cid)
         elif code & 4:
-            ctx.fail("c15-eq-equal-params-unequal", "configurations with equal parameters do not compare equal", replay, case=cid)
+            run.fail(c, "c15-eq-equal-params-unequal", "configurations with equal parameters do not compare equal", replay, case=cid)
     # ---- roundtrip
     for i, (c, code) in enumerate(zip(run.cases["roundtrip"], codes["roundtrip"])):
         cid = ("roundtrip", i)
         P = c["P"]
         meth = effective(P)[0]
-        replay = dict(kind="roundtrip", args=show(P), created=c["o_create"].brief(), restored=c["o_rt"].brief(), tag=c["tag"])
+        replay = dict(kind="roundtrip", args=show(P), types=c["T"], via=c["via"], created=c["o_create"].brief(),
+                      restored=c["o_rt"].brief(), tag=c["tag"])
         if code is None:
             continue
         if code & 1:
@@ -1037,19 +1230,19 @@ def interpret(run, codes):
             else:
                 sig = "c15-roundtrip-differs:%s" % (c["o_rt"].exn() or "value")
                 ctx.disagree("Cases_C15_roundtrip", cid, dict(code=code, replay=replay))
-            ctx.fail(sig, "from_dict(to_dict()) of a %s configuration gives %s" % (meth, short(c["o_rt"])), replay, case=cid)
+            run.fail(c, sig, "from_dict(to_dict()) of a %s configuration gives %s" % (meth, short(c["o_rt"])), replay, case=cid)
         elif cos_of(P).kind == "custom" and c["o_rt"].exn() == "ConfigError":
             # to_dict refuses custom cosmologies (documented; premise cosmo_named of roundtrip_id)
             ctx.bump("roundtrip_refused_custom_cosmology")
         elif code & 4:
-            ctx.fail("c15-roundtrip-differs:value", "from_dict(to_dict()) changes the configuration", replay, case=cid)
+            run.fail(c, "c15-roundtrip-differs:value", "from_dict(to_dict()) changes the configuration", replay, case=cid)
         elif code & 8:
             e = c["o_create"].snap["edges"]
             inexact = is_generated(P) and (e[0] != P["zmin"] or e[-1] != P["zmax"])
             if meth in ("comoving", "logspace") and inexact:
                 ctx.bump("roundtrip_changes_edges_bits_because_span_inexact:" + meth)
             else:
-                ctx.fail("c15-roundtrip-changes-edges", "from_dict(to_dict()) changes bin edges (%s)" % meth, replay, case=cid)
+                run.fail(c, "c15-roundtrip-changes-edges", "from_dict(to_dict()) changes bin edges (%s)" % meth, replay, case=cid)
     # ---- angle
     for i, (c, code) in enumerate(zip(run.cases["angle"], codes["angle"])):
         cid = ("angle", i)
@@ -1057,15 +1250,22 @@ def interpret(run, codes):
         if code is None:
             continue
         if code & 3:
-            ctx.fail("c15-angle-%s" % c["unit"], "get_angle_radian for unit %s is not r * factor / D(z) of the "
-                     "configured cosmology" % c["unit"], replay, case=cid)
+            twin = c.get("twin")
+            if c.get("types") and twin is not None and codes["angle"][twin] is not None and not (codes["angle"][twin] & 3):
+                run.fail(c, "c15-angle-precision:" + type_sig(c["types"]),
+                         "get_angle_radian for unit %s is r * factor / D(z) when the scale limits are plain python numbers, "
+                         "but not for the same numbers handed over as %s: %s against %s"
+                         % (c["unit"], type_sig(c["types"]), c["angles"], run.cases["angle"][twin]["angles"]), replay, case=cid)
+            else:
+                run.fail(c, "c15-angle-%s" % c["unit"], "get_angle_radian for unit %s is not r * factor / D(z) of the "
+                         "configured cosmology" % c["unit"], replay, case=cid)
         if code & 4:
-            ctx.fail("c15-deg2rad-factor", "the factor of np.deg2rad is not pi/180", replay, case=cid)
+            run.fail(c, "c15-deg2rad-factor", "the factor of np.deg2rad is not pi/180", replay, case=cid)
 
 
 def short(o):
     if o.raised:
-        return "%s" % type(o.exc).__name__
+        return "%s" % o.exn()
     s = o.snap
     return "%s edges %s.. cosmology %s" % (s["method"], [round(x, 9) for x in s["edges"][:3]], s["cosmo"])
 
@@ -1113,8 +1313,9 @@ def build_cases(ctx, run):
         rng.shuffle(vary)
         for PB in vary[:k]:
             run.add_eq(P, PB, False, "differ")
-    for tag, P in invalid_params(rng):
-        run.add_create(P, tag, expect_invalid=True)
+    for tag, P, T in invalid_params(rng):
+        run.add_create(P, tag, expect_invalid=True, T=T)
+    typed_cases(ctx, run, bases)
     # angles: every unit x cosmology (through a Configuration), custom cosmology through ScalesConfig
     # from just above 0 (the low-redshift bins of C01) to beyond the turnover of the angular-diameter distance
     zs = [2.0 ** -10, 2.0 ** -8, 0.0625, 0.25, 0.5, 1.0, 2.0, 6.0] if ctx.quick() else \
@@ -1140,6 +1341,92 @@ def build_cases(ctx, run):
             run.add_angle_fresh(u, 100.0, 1000.0, 0.5, 55.0 + 2.5 * j, 0.2 + 0.01 * j, "short-lived-cosmology")
 
 
+def typed_cases(ctx, run, bases):
+    """the base configurations once more, every value in a python type drawn for it: create, the YAML / file round
+    trip, == with the configuration built from plain values, typed modifications, and the angles of typed scales"""
+    rng = ctx.rng
+    zs = [0.0625, 0.25, 0.5, 1.0, 2.0]
+    for i, P in enumerate(bases):
+        if not ctx.quick() and i >= 60:
+            break
+        T = draw_types(rng, P)
+        if not T:
+            T = draw_types(rng, P, prob=1.0)
+        obs = run.add_create(P, "typed-base", T=T)
+        if obs.raised:
+            continue
+        run.add_roundtrip(P, "typed-base", T=T, via=["yaml", "file", "dict"][i % 3])
+        run.add_eq(P, dict(P), True, "typed-vs-plain", TA=T)
+        mods = single_mods(rng, P) + double_mods(rng, P, 3)
+        rng.shuffle(mods)
+        done = 0
+        for M in mods:
+            TM = draw_types(rng, M, prob=0.9)
+            if not TM:
+                continue
+            # a typed modification of the typed configuration, and the same of the plain one
+            run.add_modify(P, M, "typed", T=T if done % 2 == 0 else None, TM=TM)
+            done += 1
+            if done >= ctx.n(4, 5):
+                break
+        # the modification that changes nothing of a typed configuration regenerates what create made
+        same = {k: P[k] for k in ("num_bins", "closed", "rweight") if k in P and P[k] is not None}
+        if same:
+            k = rng.choice(sorted(same))
+            run.add_modify(P, {k: same[k]}, "typed-same-value", T=T)
+        if "rmin" in T or "rmax" in T:
+            u = P.get("unit", "kpc")
+            ident = cos_of(P).ident() or 0
+            z = rng.choice(zs)
+            TS = {k: T[k] for k in ("rmin", "rmax") if k in T}
+            twin = run.add_angle(u, P["rmin"], P["rmax"], z, ident, "typed-scales-plain", via_config=ident != CUSTOM_ID)
+            run.add_angle(u, P["rmin"], P["rmax"], z, ident, "typed-scales", via_config=ident != CUSTOM_ID, T=TS, twin=twin)
+    # every scale type x every unit, one redshift each
+    for ui, u in enumerate(UNITS):
+        for multi in (False, True):
+            lo, hi = gen_scales(rng, multi=multi)
+            if multi or isinstance(lo, list):
+                lo, hi = as_list(lo), as_list(hi)
+            kinds = [k for k in kinds_for("rmin", lo) if k in kinds_for("rmax", hi)]
+            for kind in (kinds if not ctx.quick() else rng.sample(kinds, min(2, len(kinds)))):
+                z = rng.choice(zs)
+                twin = run.add_angle(u, lo, hi, z, ui % 3, "scale-types-plain")
+                run.add_angle(u, lo, hi, z, ui % 3, "scale-types", T=dict(rmin=kind, rmax=kind), twin=twin)
+
+
+def optimised_cases(ctx, run):
+    """-O / PYTHONOPTIMIZE=1: every case in which the implementation refused something (the refusals the property
+    demands are among them: invalid create-arguments in every type, NaN, refused modifications), every create and round
+    trip, and a sample of the accepted modifications and comparisons - the same jobs, the same Coq checkers"""
+    rng = ctx.rng
+    snap = {k: list(v) for k, v in run.cases.items()}
+    refused = [c for c in snap["modify"] if c["o_mod"].raised]
+    accepted = [c for c in snap["modify"] if not c["o_mod"].raised]
+    rng.shuffle(refused)
+    rng.shuffle(accepted)
+    # refusals that come from a validation of numbers (the ones an assert could stand for) first
+    refused.sort(key=lambda c: 0 if set(c["M"]) & {"rmin", "rmax", "zmin", "zmax", "edges", "num_bins"} else 1)
+    mods = refused[:ctx.n(40, 160)] + accepted[:ctx.n(24, 100)]
+    eqs = list(snap["eq"])
+    rng.shuffle(eqs)
+    creates = snap["create"] if ctx.quick() else snap["create"][:260]
+    rts = snap["roundtrip"] if ctx.quick() else snap["roundtrip"][:80]
+    remotes = [Remote(mode) for mode in MODES]
+    for rem in remotes:
+        for c in creates:
+            run.add_create(c["P"], c["tag"], expect_invalid=c["expect_invalid"], T=c["T"], where=rem, baseline=c)
+        for c in snap["direct"]:
+            run.add_direct(c["P"], c["tag"], c["sig"], M=c["M"], T=c["T"], TM=c["TM"], where=rem, baseline=c)
+        for c in mods:
+            run.add_modify(c["P"], c["M"], c["tag"], T=c["T"], TM=c["TM"], where=rem, baseline=c)
+        for c in rts:
+            run.add_roundtrip(c["P"], c["tag"], T=c["T"], via=c["via"], where=rem, baseline=c)
+        for c in eqs[:ctx.n(8, 30)]:
+            run.add_eq(c["PA"], c["PB"], c["same"], c["tag"], TA=c["TA"], TB=c["TB"], where=rem, baseline=c)
+    ctx.log("optimised interpreters: %s" % ", ".join("%s=%d jobs" % (r.mode, len(r.pending)) for r in remotes))
+    run.flush(remotes)
+
+
 def evaluate(ctx, run):
     codes = {}
     for kind in ("create", "modify", "eq", "roundtrip", "angle"):
@@ -1157,6 +1444,7 @@ def run(ctx):
     r = Run(ctx)
     trace_obligations(ctx)
     build_cases(ctx, r)
+    optimised_cases(ctx, r)
     ctx.log("cases: " + ", ".join("%s=%d" % (k, len(v)) for k, v in r.cases.items()))
     evaluate(ctx, r)
 
@@ -1176,17 +1464,29 @@ def replay(ctx, data):
         return out
     r = Run(ctx)
     kind = rp.get("kind")
+    rem = Remote(rp["interpreter"]) if rp.get("interpreter") in MODES else None
+    T = rp.get("types") or {}
     if kind == "create":
-        r.add_create(unshow(rp["args"]), rp.get("tag", "replay"))
+        r.add_create(unshow(rp["args"]), rp.get("tag", "replay"), T=T, where=rem)
     elif kind == "modify":
-        r.add_modify(unshow(rp["args"]), unshow(rp["mods"]), "replay")
+        r.add_modify(unshow(rp["args"]), unshow(rp["mods"]), "replay", T=T, TM=rp.get("mod_types"), where=rem)
     elif kind == "eq":
-        r.add_eq(unshow(rp["a"]), unshow(rp["b"]), rp["a"] == rp["b"], "replay")
+        r.add_eq(unshow(rp["a"]), unshow(rp["b"]), rp.get("same", rp["a"] == rp["b"]), "replay", TA=rp.get("a_types"),
+                 TB=rp.get("b_types"), where=rem)
     elif kind == "roundtrip":
-        r.add_roundtrip(unshow(rp["args"]), "replay")
-    elif kind == "angle":
-        r.add_angle(rp["unit"], rp["rmin"], rp["rmax"], rp["z"], rp["cosmology"], "replay",
-                    via_config=rp.get("tag") != "custom-cosmology")
+        r.add_roundtrip(unshow(rp["args"]), "replay", T=T, via=rp.get("via", "dict"), where=rem)
+    elif kind == "direct":
+        r.add_direct(unshow(rp["args"]), rp.get("tag", "replay"), rp["signature"],
+                     M=unshow(rp["mods"]) if rp.get("mods") is not None else None, T=T, TM=rp.get("mod_types"), where=rem)
+    elif (kind == "angle" or "unit" in rp) and not isinstance(rp.get("cosmology"), str):
+        via = rp.get("tag") != "custom-cosmology"
+        twin = None
+        if rp.get("types"):
+            twin = r.add_angle(rp["unit"], rp["rmin"], rp["rmax"], rp["z"], rp["cosmology"], "replay-plain", via_config=via)
+        r.add_angle(rp["unit"], rp["rmin"], rp["rmax"], rp["z"], rp["cosmology"], "replay", via_config=via,
+                    T=rp.get("types"), twin=twin)
     else:
         probes(r)
+    if rem is not None:
+        r.flush([rem])
     evaluate(ctx, r)
